@@ -265,6 +265,16 @@ pub fn build(repo: &Path, root: &Path, with_big: bool) -> Tree {
         fs::write(d.join("schema_permuted.graphql"), &permuted).unwrap();
         fixtures.push(Fixture { dir: name.to_string(), file: "schema_permuted.graphql".into(), is_schema: true, ops: vec![], big: false, deepbad: false });
         fixtures.push(Fixture { dir: name.to_string(), file: "query.graphql".into(), is_schema: false, ops: operation_names(query), big: false, deepbad: false });
+        // the same two files as an editor on another platform would save them: with a UTF-8
+        // byte-order mark, and (the query) with CRLF line ends
+        if name != "syn_wide" {
+            fs::write(d.join("bom_schema.graphql"), format!("{}{}", "\u{feff}", schema)).unwrap();
+            fixtures.push(Fixture { dir: name.to_string(), file: "bom_schema.graphql".into(), is_schema: true, ops: vec![], big: false, deepbad: false });
+            fs::write(d.join("bom_query.graphql"), format!("{}{}", "\u{feff}", query)).unwrap();
+            fixtures.push(Fixture { dir: name.to_string(), file: "bom_query.graphql".into(), is_schema: false, ops: operation_names(query), big: false, deepbad: false });
+            fs::write(d.join("crlf_query.graphql"), query.replace('\n', "\r\n")).unwrap();
+            fixtures.push(Fixture { dir: name.to_string(), file: "crlf_query.graphql".into(), is_schema: false, ops: operation_names(query), big: false, deepbad: false });
+        }
         // a sibling of exactly the same byte length (and, written in the same instant, practically
         // the same timestamps) but different content: anything that identifies files by metadata
         // confuses the two
